@@ -232,7 +232,7 @@ func (l *list[K]) deleteNode(x *listNode[K], update *[maxLevel]*listNode[K]) {
 	} else {
 		l.tail = x.prev
 	}
-	for l.highestLevel > 1 && l.header.loadNext(l.highestLevel-1) != nil {
+	for l.highestLevel > 1 && l.header.loadNext(l.highestLevel-1) == nil {
 		// Clear the pointer and span for safety.
 		l.header.storeNextAndSpan(l.highestLevel-1, nil, 0)
 		l.highestLevel--
